@@ -270,6 +270,16 @@ Fs6Rules(lazy) ==
    \cup {<<<<t, <<o1, o2>>>>>> : t \in {3, 13}, o1, o2 \in {FsOp("=", 1, <<6>>), FsOp(">=", 2, <<1, 0>>), FsOp("<", 1, <<255>>)}}
    \cup {<<<<5, [i \in 1..n |-> FsOp("=", 2, <<1, i>>)]>>>> : n \in {79, 80, 100}}
    \cup {<<<<1, <<64, 0, A6a>>>>, <<3, <<FsOp("=", 1, <<6>>)>>>>, <<5, <<FsOp("=", 2, <<31, 144>>), FsOp("=", 1, <<80>>)>>>>, <<13, <<FsOp("=", 4, <<0, 1, 2, 3>>)>>>>>>}
+\* IPv4 unicast carried in the multiprotocol attributes (AFI 1 / SAFI 1): legal (RFC 4760), decoded by the agent, never emitted
+\* by it; every encoding variant of C09 (extended length, non-zero trailing bits, add-path identifiers)
+Mp4Vecs(lazy) ==
+   {[kind |-> "mpdec", asn4 |-> TRUE, var |-> v, u |-> [reach |-> r, ps |-> ps]] : r \in BOOLEAN, v \in Variants,
+        ps \in {<<P6[i]>> : i \in 1..6} \cup {<<P6[4], P6[2]>>, <<P6[2], P6[4], P6[6]>>, <<P6[5], P6[4], P6[1], P6[4]>>}}
+Mp4Bytes(v) ==
+   LET nl == EncPfx(v.u.ps, v.var.dirty, v.var.pathids)
+       a == IF v.u.reach THEN EncAttrs(MpBase, TRUE, FALSE) \o AttrTLV(14, U16(1) \o <<1, 4>> \o Nh4 \o <<0>> \o nl, v.var.ext)
+            ELSE AttrTLV(15, U16(1) \o <<1>> \o nl, v.var.ext)
+   IN Message(2, U16(0) \o U16(Len(a)) \o a)
 \* vectors of the construct-only families (C08): [kind "enc", sub, u]
 EncVecs(lazy) ==
    {[kind |-> "enc", sub |-> "srpol", u |-> p] : p \in PolicyPool}
